@@ -13,7 +13,7 @@ open Muscle Muscle.Gen
 theorem leVal_le32 (n : Nat) (h : n < U32) : leVal (le32 n) = n :=
   leVal_leN 4 n (by simpa [U32] using h)
 
-theorem cstr_name (n : Bytes) (h : nulFree n) : cstr (n ++ [0]) = n := by
+theorem cstr_name (n : Bytes) (h : nulFree n) : cstr (n ++ [0]) = some n := by
   have hc : (n ++ [0]).contains 0 = true := by simp
   have ht : ∀ (l : Bytes), (∀ x ∈ l, x ≠ 0) → (l ++ [0]).takeWhile (· != 0) = l := by
     intro l
@@ -25,7 +25,7 @@ theorem cstr_name (n : Bytes) (h : nulFree n) : cstr (n ++ [0]) = n := by
       have := ih (fun x hx => hl x (by simp [hx]))
       simp [ha, this]
   simp only [cstr, hc, if_true]
-  exact ht n h
+  rw [ht n h]
 
 theorem takeN_name (n X : Bytes) : takeN (n.length + 1) (n ++ 0 :: X) = some (n ++ [0], X) := by
   have := takeN_append' (n ++ [0]) X (n.length + 1) (by simp)
